@@ -113,8 +113,35 @@ def scalar_coef(ctx, depth):
     if 3 <= _size(e) <= 40: ctx.pool.append(e)
     return e
 
+def _let_body(ctx, depth):
+    """Smooth rational expression in the coordinates, parametric scalar fields, parameters and constants (operators for which the
+    form compiler has differentiation rules): the body of a variable defined by VForm.let()."""
+    r = ctx.rng
+    if depth <= 0 or r.random() < 0.2:
+        z = r.random()
+        if z < 0.4: return ['x', int(r.integers(0, ctx.geo_dim))]
+        if z < 0.6: return C(round(float(r.uniform(-2, 2)), 3))
+        if z < 0.85: return ['field', ctx.new_field((), False)]
+        return ['param', ctx.new_param(())]
+    z = r.random(); a = _let_body(ctx, depth - 1); b = _let_body(ctx, depth - 1)
+    if z < 0.35: return ['*', a, b]
+    if z < 0.6: return ['+', a, b]
+    if z < 0.8: return ['-', a, b]
+    return ['/', a, ['+', C(1.5), ['*', b, b]]]
+
+def let_coef(ctx):
+    """A named variable (VForm.let) used as a coefficient: by value, or differentiated in parametric or physical coordinates."""
+    r = ctx.rng
+    L = ['let', 'w', _let_body(ctx, int(r.integers(1, 3)))]
+    z = r.random()
+    par = lambda: bool(r.random() < 0.6) or not ctx.allow_phys
+    if z < 0.2: return L
+    if z < 0.8: return ['Dx', L, int(r.integers(0, ctx.dim)), par()]
+    return ['idx', ['grad', L, par()], int(r.integers(0, ctx.dim))]
+
 def _scalar_coef(ctx, depth):
     r = ctx.rng
+    if depth > 0 and r.random() < 0.06: return let_coef(ctx)
     if depth <= 0 or r.random() < 0.3: return scalar_leaf(ctx)
     z = r.random()
     a = scalar_coef(ctx, depth - 1)
@@ -233,11 +260,13 @@ def random_form(rng, dims=(1, 2, 3), depth=3, g0_only=False):
     allow2 = (measure == 'dx')
     nterms = int(rng.integers(1, 4))
     exprs = []
-    terms = []
+    terms = []; cores = []
     for t in range(nterms):
         coef = scalar_coef(ctx, depth - 1) if rng.random() < 0.7 else C(1.0)
-        if arity == 2: core = bilinear(ctx, comps[0], comps[1], depth - 1, allow2)
+        if t > 0 and rng.random() < 0.3: core = copy.deepcopy(cores[int(rng.integers(0, len(cores)))])     # the same core again with another coefficient
+        elif arity == 2: core = bilinear(ctx, comps[0], comps[1], depth - 1, allow2)
         else: core = lin_op(ctx, 'u', comps[0], depth - 1, allow2)
+        cores.append(core)
         meas = ['dx'] if measure == 'dx' else ['ds']
         if measure == 'dx' and rng.random() < 0.1: meas = ['gw']
         term = mul(coef, core, meas)
@@ -248,7 +277,9 @@ def random_form(rng, dims=(1, 2, 3), depth=3, g0_only=False):
     if rng.random() < 0.5 or len(terms) == 1: exprs = [add(*terms)]
     else: exprs = terms
     return {'dim': dim, 'geo_dim': geo_dim, 'boundary': boundary, 'arity': arity, 'components': comps, 'spaces': spaces,
-            'params': ctx.params, 'fields': ctx.fields, 'exprs': exprs, 'grammar': 'G1'}
+            'params': ctx.params, 'fields': ctx.fields, 'exprs': exprs, 'grammar': 'G1',
+            # equal subtrees are built once and the same expression object is used wherever they occur (gu = grad(u) used in several terms and add() calls)
+            'share_objects': bool(rng.random() < 0.4)}
 
 # ---- G0: constructs shown in the guide ---------------------------------------------------------------
 def g0_forms(dim):
